@@ -193,14 +193,124 @@ func ruleP1(p *Prog, r *Report, eng *Engine) {
 		r.Unknown("P1", "anchor", "-", "unresolved anchor: type expressionNodePartial")
 		return
 	}
+	st := expPartial.Type().Underlying().(*types.Struct)
+	checkSite := func(f *ssa.Function, at token.Pos, vals map[string]ssa.Value) {
+		conj := resolveConjunction(pi, vals["conjunction"])
+		key := fmt.Sprintf("%s|builds %q node", p.shortKey(f), conj)
+		pos := p.pos(at)
+		l, okL := vals["left"].(*ssa.Call)
+		rt, okR := vals["right"].(*ssa.Call)
+		if !okL || !okR || l.Call.StaticCallee() == nil || rt.Call.StaticCallee() == nil {
+			r.Unknown("P1", key, pos, "kind=undecided: operands of the node literal are not direct results of sub-parser calls")
+			return
+		}
+		lf, rf := l.Call.StaticCallee(), rt.Call.StaticCallee()
+		var probs []string
+		if !(l.Block() == rt.Block() && blockOrder(l) < blockOrder(rt) || l.Block() != rt.Block() && l.Block().Dominates(rt.Block())) {
+			probs = append(probs, "the left operand is not parsed before the right operand")
+		}
+		switch conj {
+		case "or":
+			if pi.ops0[lf]["OR"] {
+				probs = append(probs, fmt.Sprintf("left operand comes from %s, which can itself consume OR outside parentheses %s", lf.Name(), setStr(pi.ops0[lf])))
+			}
+			if !pi.ops0[lf]["AND"] {
+				probs = append(probs, fmt.Sprintf("left operand comes from %s, which cannot parse an AND chain: AND would not bind tighter than OR", lf.Name()))
+			}
+			if !pi.ops0[rf]["AND"] {
+				probs = append(probs, fmt.Sprintf("right operand comes from %s, which cannot parse an AND chain", rf.Name()))
+			}
+		case "and":
+			if pi.ops0[lf]["OR"] {
+				probs = append(probs, fmt.Sprintf("left operand comes from %s, which can consume OR outside parentheses %s: OR would bind tighter than AND", lf.Name(), setStr(pi.ops0[lf])))
+			}
+			if pi.ops0[rf]["OR"] {
+				probs = append(probs, fmt.Sprintf("right operand comes from %s, which can consume OR outside parentheses %s: 'A AND B OR C' would group as A AND (B OR C)", rf.Name(), setStr(pi.ops0[rf])))
+			}
+		default:
+			probs = append(probs, "conjunction value is not resolvable to \"and\" / \"or\"")
+		}
+		// the operator consumed between the operands must be the node's own
+		wantOp := strings.ToUpper(conj)
+		between := false
+		for _, b2 := range f.Blocks {
+			for _, in2 := range b2.Instrs {
+				if c2, ok := in2.(*ssa.Call); ok {
+					if s, ok := pi.opConst(c2); ok && s == wantOp && pi.consuming(c2) {
+						if (c2.Block() == l.Block() && blockOrder(c2) > blockOrder(l) || l.Block().Dominates(c2.Block()) && l.Block() != c2.Block()) &&
+							(c2.Block() == rt.Block() && blockOrder(c2) < blockOrder(rt) || c2.Block().Dominates(rt.Block()) && c2.Block() != rt.Block()) {
+							between = true
+						}
+					}
+				}
+			}
+		}
+		if !between && (conj == "and" || conj == "or") {
+			probs = append(probs, fmt.Sprintf("no successful parseOperator(%q) lies between parsing the left and the right operand", wantOp))
+		}
+		if len(probs) > 0 {
+			r.Bad("P1", key, pos, strings.Join(probs, "; "))
+		} else {
+			r.OK("P1", key, pos, "layered", fmt.Sprintf("left from %s %s, right from %s %s", lf.Name(), setStr(pi.ops0[lf]), rf.Name(), setStr(pi.ops0[rf])), true)
+		}
+	}
+	// constructor helpers: functions that build an expression node from their own parameters
+	ctors := map[*ssa.Function]map[string]int{}
+	for _, pk := range p.Pkgs {
+		for _, g := range p.AllModuleFuncs(pk) {
+			if p.isTestPos(g.Pos()) {
+				continue
+			}
+			for _, gb := range g.Blocks {
+				for _, gin := range gb.Instrs {
+					al, ok := gin.(*ssa.Alloc)
+					if !ok || !types.Identical(al.Type().Underlying().(*types.Pointer).Elem(), expPartial.Type()) {
+						continue
+					}
+					m := map[string]int{}
+					for _, ref := range *al.Referrers() {
+						fa, ok := ref.(*ssa.FieldAddr)
+						if !ok {
+							continue
+						}
+						for _, rr := range *fa.Referrers() {
+							if sx, ok := rr.(*ssa.Store); ok && sx.Addr == fa {
+								for pi2, prm := range g.Params {
+									if sx.Val == ssa.Value(prm) {
+										m[st.Field(fa.Field).Name()] = pi2
+									}
+								}
+							}
+						}
+					}
+					if _, okL := m["left"]; okL {
+						if _, okR := m["right"]; okR {
+							ctors[g] = m
+						}
+					}
+				}
+			}
+		}
+	}
 	for _, f := range funcs {
 		for _, b := range f.Blocks {
 			for _, in := range b.Instrs {
+				if c, ok := in.(*ssa.Call); ok && c.Call.StaticCallee() != nil {
+					if m, isCtor := ctors[c.Call.StaticCallee()]; isCtor {
+						vals := map[string]ssa.Value{}
+						for fld, idx := range m {
+							if idx < len(c.Call.Args) {
+								vals[fld] = c.Call.Args[idx]
+							}
+						}
+						checkSite(f, c.Pos(), vals)
+					}
+					continue
+				}
 				al, ok := in.(*ssa.Alloc)
 				if !ok || !types.Identical(al.Type().Underlying().(*types.Pointer).Elem(), expPartial.Type()) {
 					continue
 				}
-				st := expPartial.Type().Underlying().(*types.Struct)
 				vals := map[string]ssa.Value{}
 				for _, ref := range *al.Referrers() {
 					fa, ok := ref.(*ssa.FieldAddr)
@@ -213,64 +323,7 @@ func ruleP1(p *Prog, r *Report, eng *Engine) {
 						}
 					}
 				}
-				conj := resolveConjunction(pi, vals["conjunction"])
-				key := fmt.Sprintf("%s|builds %q node", p.shortKey(f), conj)
-				pos := p.pos(al.Pos())
-				l, okL := vals["left"].(*ssa.Call)
-				rt, okR := vals["right"].(*ssa.Call)
-				if !okL || !okR || l.Call.StaticCallee() == nil || rt.Call.StaticCallee() == nil {
-					r.Unknown("P1", key, pos, "kind=undecided: operands of the node literal are not direct results of sub-parser calls")
-					continue
-				}
-				lf, rf := l.Call.StaticCallee(), rt.Call.StaticCallee()
-				var probs []string
-				if !(l.Block() == rt.Block() && blockOrder(l) < blockOrder(rt) || l.Block() != rt.Block() && l.Block().Dominates(rt.Block())) {
-					probs = append(probs, "the left operand is not parsed before the right operand")
-				}
-				switch conj {
-				case "or":
-					if pi.ops0[lf]["OR"] {
-						probs = append(probs, fmt.Sprintf("left operand comes from %s, which can itself consume OR outside parentheses %s", lf.Name(), setStr(pi.ops0[lf])))
-					}
-					if !pi.ops0[lf]["AND"] {
-						probs = append(probs, fmt.Sprintf("left operand comes from %s, which cannot parse an AND chain: AND would not bind tighter than OR", lf.Name()))
-					}
-					if !pi.ops0[rf]["AND"] {
-						probs = append(probs, fmt.Sprintf("right operand comes from %s, which cannot parse an AND chain", rf.Name()))
-					}
-				case "and":
-					if pi.ops0[lf]["OR"] {
-						probs = append(probs, fmt.Sprintf("left operand comes from %s, which can consume OR outside parentheses %s: OR would bind tighter than AND", lf.Name(), setStr(pi.ops0[lf])))
-					}
-					if pi.ops0[rf]["OR"] {
-						probs = append(probs, fmt.Sprintf("right operand comes from %s, which can consume OR outside parentheses %s: 'A AND B OR C' would group as A AND (B OR C)", rf.Name(), setStr(pi.ops0[rf])))
-					}
-				default:
-					probs = append(probs, "conjunction value is not resolvable to \"and\" / \"or\"")
-				}
-				// the operator consumed between the operands must be the node's own
-				wantOp := strings.ToUpper(conj)
-				between := false
-				for _, b2 := range f.Blocks {
-					for _, in2 := range b2.Instrs {
-						if c2, ok := in2.(*ssa.Call); ok {
-							if s, ok := pi.opConst(c2); ok && s == wantOp && pi.consuming(c2) {
-								if (c2.Block() == l.Block() && blockOrder(c2) > blockOrder(l) || l.Block().Dominates(c2.Block()) && l.Block() != c2.Block()) &&
-									(c2.Block() == rt.Block() && blockOrder(c2) < blockOrder(rt) || c2.Block().Dominates(rt.Block()) && c2.Block() != rt.Block()) {
-									between = true
-								}
-							}
-						}
-					}
-				}
-				if !between && (conj == "and" || conj == "or") {
-					probs = append(probs, fmt.Sprintf("no successful parseOperator(%q) lies between parsing the left and the right operand", wantOp))
-				}
-				if len(probs) > 0 {
-					r.Bad("P1", key, pos, strings.Join(probs, "; "))
-				} else {
-					r.OK("P1", key, pos, "layered", fmt.Sprintf("left from %s %s, right from %s %s", lf.Name(), setStr(pi.ops0[lf]), rf.Name(), setStr(pi.ops0[rf])), true)
-				}
+				checkSite(f, al.Pos(), vals)
 			}
 		}
 	}
@@ -292,6 +345,7 @@ func ruleP1(p *Prog, r *Report, eng *Engine) {
 		key := p.shortKey(f) + "|parenthesised result"
 		var probs []string
 		closed := false
+		nParen := 0
 		for _, b := range f.Blocks {
 			ret, ok := b.Instrs[len(b.Instrs)-1].(*ssa.Return)
 			if !ok || len(ret.Results) == 0 {
@@ -300,6 +354,10 @@ func ruleP1(p *Prog, r *Report, eng *Engine) {
 			if isNilValue(ret.Results[0], 0) {
 				continue
 			}
+			if !pi.behindParen(ret) {
+				continue // a return of the same function that is not on the parenthesis path (another kind of atom)
+			}
+			nParen++
 			inner, ok := ret.Results[0].(*ssa.Call)
 			if !ok || inner.Call.StaticCallee() == nil || !pi.behindParen(inner) {
 				probs = append(probs, fmt.Sprintf("%s: the value returned for a parenthesised expression is not the plain result of the inner parse (parentheses would leave a trace in the tree)", p.pos(ret.Pos())))
@@ -325,6 +383,9 @@ func ruleP1(p *Prog, r *Report, eng *Engine) {
 			if !closed {
 				probs = append(probs, fmt.Sprintf("%s: the parenthesised result is returned without a successful parseOperator(\")\")", p.pos(ret.Pos())))
 			}
+		}
+		if nParen == 0 {
+			probs = append(probs, "after an opening parenthesis no value is ever returned")
 		}
 		if len(probs) > 0 {
 			r.Bad("P1", key, p.pos(f.Pos()), strings.Join(probs, "; "))
